@@ -76,6 +76,9 @@ def measured_degree(shape, c, w, cap=24, tol=1e-10):
     return deg
 
 
+QUERIES = ["gausscoord_disp", "normals_disp", "syscoord_disp", "integrate", "gausscoord_elems"]
+
+
 def cases(tier, seed):
     out = []
     for shape in SHAPE_REP:
@@ -101,6 +104,13 @@ def cases(tier, seed):
             polys = ["quad", "L"] if tier == "quick" else ["quad", "L", "pent"]
             for poly in polys:
                 out.append({"kind": "geom_gmsh", "elemType": et, "poly": poly})
+    # E2: read-only geometric queries (Gauss coordinates / normals / element frames on a displaced configuration) in every
+    # order up to length 2, then the measure, centroid and first moments must still be the exact ones
+    for et in Z.ALL_TYPES:
+        if Z.dim_of(et) == 1:
+            continue
+        for seq in [(a,) for a in QUERIES] + [(a, b) for a in QUERIES for b in QUERIES]:
+            out.append({"kind": "geom_history", "elemType": et, "ops": list(seq)})
     for mix in Z.MIXED_2D + Z.MIXED_3D:
         out.append({"kind": "geom", "elemType": list(mix), "src": "t", "k": 2, "distort": False, "map": "generic"})
     for et in Z.ALL_TYPES:
@@ -303,6 +313,72 @@ def _run_geom(case):
                                       matrixType=str(mt), monomial=str(e), **key))
     return {"violations": v[:12], "fingerprint": fp(str(et), k, dist, case["map"], np.array(fps)), "nontrivial": mesh.Ne > 1,
             "transitions": nent}
+
+
+def _observe_geom(mesh, d):
+    from EasyFEA.FEM._utils import MatrixType
+
+    meas = float(mesh.area if d == 2 else mesh.volume)
+    cen = np.asarray(mesh.center, dtype=float)
+    moms = []
+    for g in mesh.Get_list_groupElem():
+        for mt in (MatrixType.rigi, MatrixType.mass):
+            moms.append(float(np.sum(g.Integrate_e(lambda x, y, z: 1 + 0 * x, mt))))
+            moms.append(float(np.sum(g.Integrate_e(lambda x, y, z: x + 2 * y - z, mt))))
+    bnd = []
+    for g in mesh.Get_list_groupElem(d - 1):
+        bnd.append(float(np.sum(g.Integrate_e(lambda x, y, z: 1 + 0 * x, MatrixType.mass))))
+        bnd.append(float(np.sum(g.Integrate_e(lambda x, y, z: x - y + 0.5 * z, MatrixType.mass))))
+    return np.array([meas, *cen, *moms, *bnd])
+
+
+def _run_geom_history(case):
+    from EasyFEA.FEM._utils import MatrixType
+
+    et = case["elemType"]
+    d = Z.dim_of(et)
+    zm = Z.template_2d(et, 2) if d == 2 else Z.template_3d(et, 1 if Z.topo(et) != "HEXA" else [2, 1, 1])
+    A, b = _map("generic", d)
+    zm = zm.mapped(A, b)
+    mesh = zm.build()
+    ref = _observe_geom(zm.build(), d)  # fresh objects, no query issued
+    r = rng("c07hist", et)
+    U = r.normal(size=(mesh.Nn, 3)) * 0.1
+    v = []
+    done = []
+    ntr = 0
+    for op in case["ops"]:
+        done.append(op)
+        for g in mesh.dict_groupElem.values():
+            if g.dim == 0:
+                continue
+            if op == "gausscoord_disp":
+                X0 = np.asarray(g.Get_GaussCoordinates_e_pg(MatrixType.mass))
+                X1 = np.asarray(g.Get_GaussCoordinates_e_pg(MatrixType.mass, displacementMatrix=U))
+                N = np.asarray(g.Get_N_pg(MatrixType.mass))[:, 0, :]
+                want = X0 + np.einsum("pn,end->epd", N, U[g.connect])
+                if np.abs(X1 - want).max() > 1e-12:
+                    v.append(viol("displaced_gauss_coordinates", f"{et}/{g.elemType}: Gauss coordinates on the displaced configuration differ from x + N u by {np.abs(X1 - want).max():.2e}",
+                                  elemType=et, ops="+".join(done)))
+            elif op == "normals_disp" and g.dim in (1, 2) and g.dim == d - 1:
+                g.Get_normals_e_pg(MatrixType.mass, displacementMatrix=U)
+            elif op == "syscoord_disp" and g.dim < 3:
+                g._Get_sysCoord_e(U)
+            elif op == "integrate":
+                g.Integrate_e(lambda x, y, z: x * y, MatrixType.mass)
+            elif op == "gausscoord_elems":
+                g.Get_GaussCoordinates_e_pg(MatrixType.rigi, elements=np.array([0]))
+            ntr += 1
+        obs = _observe_geom(mesh, d)
+        sc = max(1.0, np.abs(ref).max())
+        if obs.shape != ref.shape or np.abs(obs - ref).max() > 1e-11 * sc:
+            v.append(viol("geometry_after_query", f"{et}: after read-only queries {done} measure/centroid/moments changed by {np.abs(obs - ref).max():.3e}",
+                          elemType=et, ops="+".join(done)))
+            break
+    # the exact values too
+    if "measure" in zm.exact and abs(ref[0] - zm.exact["measure"]) > 1e-11 * zm.exact["measure"]:
+        v.append(viol("measure", f"{zm.name}: measure {ref[0]!r} exact {zm.exact['measure']!r}", elemType=et, k=0, distort=False, map="generic"))
+    return {"violations": v[:6], "fingerprint": fp(et, case["ops"], ref), "nontrivial": True, "transitions": ntr}
 
 
 def _run_geom_gmsh(case):
